@@ -45,6 +45,8 @@ fn parts_for(prop: &str, tier: Tier) -> Vec<Box<dyn explore::Harness>> {
         "C01" => vec![c(CProp::C01)],
         // (cheap parts first: each part gets an equal share of the wall cap that is LEFT)
         "C02" => vec![
+            // wake-ups of the shipped in-memory transports (two-way histories, both ends)
+            Box::new(codec::ChanHarness { cfgs: codec::chan_configs(if tier == Tier::Thorough { 8 } else { 6 }) }),
             Box::new(burst::BurstHarness { prop: "C02", cfgs: burst::configs_many(burst::Side::ClientManyCalls, tier == Tier::Thorough) }),
             hc(chain_props::HProp::C02),
             s(SProp::C02),
@@ -268,6 +270,19 @@ fn do_replay(prop: &str, path: &str) -> i32 {
             eprintln!("machinery: {e}");
             return 2;
         }
+        println!("{}", out.render.unwrap_or_default());
+        for v in &out.violations {
+            println!("violated: {} — {}", v.signature, v.message);
+        }
+        if out.violations.iter().any(|v| v.signature == sig) {
+            println!("VIOLATION property={prop} replay={path}");
+            return 1;
+        }
+        return 0;
+    }
+    if harness.starts_with("channel") {
+        let cfg: codec::ChanCfg = serde_json::from_value(doc["config"].clone()).expect("config");
+        let out = codec::run_chan_cfg(&cfg, true);
         println!("{}", out.render.unwrap_or_default());
         for v in &out.violations {
             println!("violated: {} — {}", v.signature, v.message);
